@@ -98,6 +98,12 @@ def cli_chain_case(rep, rc, parts):
     d = tempfile.mkdtemp(prefix="verif_c04cli_")
     case = {"kind": "cli", "recipe": text, "parts": parts, "ast": rc}
 
+    def load_rows(path):
+        # a run that emits no row (only hidden tables; everything just_once and continued) leaves the file empty
+        with open(path) as f:
+            t = f.read()
+        return _json.loads(t) if t.strip() else []
+
     def run(args):
         try:
             generate_cli.main(args, standalone_mode=False)
@@ -116,7 +122,7 @@ def cli_chain_case(rep, rc, parts):
         rep.count("cli:unsplit:" + ("ok" if err is None else "error"))
         if err is not None:
             return
-        want = _json.load(open(one))
+        want = load_rows(one)
         got = []
         state = os.path.join(d, "state.yml")
         for i, ki in enumerate(parts):
@@ -131,7 +137,7 @@ def cli_chain_case(rep, rc, parts):
                 rep.violation(sig, f"CLI run {i} of the chain {parts} with a rolling continuation file fails ({err}); the single run of {k} iterations completes",
                               case, "ok", err)
                 return
-            got += _json.load(open(out))
+            got += load_rows(out)
         if got != want:
             sig = "C04:split-differs:justonce-row-field" if justonce_row_fields(rc) else "C04:cli-rolling-continuation-differs"
             rep.violation(sig, f"CLI chain {parts} through one rolling continuation file differs from the single run", case,
